@@ -7,6 +7,8 @@ Part B (schedules): SdSimulation.start with a stochastic converter x, dependants
 stock fed by x; the per-equation worker threads run under the deterministic line-level
 scheduler (vf.sched); oracle = within one run each (element, time) has a single value:
 y[t] == x[t], s[t+dt] == s[t] + dt*x[t], memo == reported value.
+Part C (stochastic, single thread): the same model plus z = delay(x, k*dt) on decimal grids, read in generated orders
+through Element.__call__ / Model.equation / Model.memoize; same single-value oracle.
 """
 import itertools
 
@@ -25,7 +27,10 @@ RULE = ("part A: cases = (model, list of ops in {eval element at t [through Elem
         "constant, reset cache, run twice, run with equation subset/order}); every evaluation must equal the reference for the "
         "current definitions; non-trivial = an edit to X after a dependent Y != X was evaluated. part B: cases = (equation "
         "list, schedule) where a schedule is a choice list or a set of <= 2 preemption points over the source lines of "
-        "modeling/model.py and sdsimulation/sd_simulation.py; non-trivial = schedule with >= 1 preemption. distinct by case")
+        "modeling/model.py and sdsimulation/sd_simulation.py; non-trivial = schedule with >= 1 preemption. part C: cases = (dt in {1,0.5,0.25,0.2,0.1,0.04}, start, n, "
+        "delay k*dt, order of <= 25 reads of x=random / y=x*1 / z=delay(x,k*dt) / stock s'=x at grid times through the three evaluation routes); "
+        "repeated reads agree and y(t)==x(t), z(t)==x(t-k*dt), s(t+dt)==s(t)+dt*x(t); non-trivial = a dependant is read before the x value "
+        "it consumes. distinct by case")
 ASSUMPTIONS = [
     "schedules are explored at source-line granularity of modeling/model.py and sdsimulation/sd_simulation.py (harness owns the scheduler via sys.settrace)",
     "part B asserts agreement of values only, never which random value",
@@ -392,9 +397,106 @@ def check_schedule(case):
     return info, vs
 
 
+
+# ---------------------------------------------------------------------------
+# part C: stochastic elements evaluated in generated orders (single thread)
+
+C_NAMES = ["x", "y", "z", "s"]
+
+
+def check_stochastic(case):
+    """x = random; y = x*1; z = delay(x, k*dt); s' = x.  Whatever is drawn, every (element, time) has one value:
+    repeated reads agree, y(t) == x(t), z(t) == x(t - k*dt) (x(start) before that), s(t+dt) == s(t) + dt*x(t)."""
+    from decimal import Decimal
+
+    from BPTK_Py import Model
+    from BPTK_Py import sd_functions as sd
+
+    info = {"status": "ok", "nontrivial": False}
+    vs = []
+    dt, start, n, k = Decimal(case["dt"]), Decimal(case["start"]), case["n"], case["k"]
+    grid = [float(str(start + i * dt)) for i in range(n + 1)]
+    m = Model(starttime=float(start), stoptime=grid[-1], dt=float(dt), name="c08c")
+    x = m.converter("x")
+    x.equation = sd.random(0, 1)
+    y = m.converter("y")
+    y.equation = x * 1.0
+    z = m.converter("z")
+    z.equation = sd.delay(m, x, float(k * dt))
+    s_ = m.stock("s")
+    s_.initial_value = 0.0
+    s_.equation = x
+    elems = {"x": x, "y": y, "z": z, "s": s_}
+    seen = {}
+
+    def read(nm, i, route="call"):
+        if route == "equation":
+            v = m.equation(elems[nm].name, grid[i])
+        elif route == "memoize":
+            v = m.memoize(elems[nm].name, grid[i])
+        else:
+            v = elems[nm](grid[i])
+        v = float(v)
+        if (nm, i) in seen and seen[(nm, i)] != v:
+            vs.append(Violation("ambiguous:reread:" + nm, "%s(%r) was %r and is now %r (route %s; case %r)" % (nm, grid[i], seen[(nm, i)], v, route, case)))
+            return None
+        seen[(nm, i)] = v
+        return v
+
+    first_dependent_before_x = False
+    try:
+        for e, i, route in case["order"]:
+            nm, i = C_NAMES[e % 4], i % (n + 1)
+            if nm != "x" and ("x", max(i - (k if nm == "z" else (1 if nm == "s" else 0)), 0)) not in seen:
+                first_dependent_before_x = True
+            if read(nm, i, route) is None:
+                return info, vs
+        info["nontrivial"] = first_dependent_before_x
+        # relations over everything that was read (reading x now must return what the dependants consumed)
+        for (nm, i), v in sorted(seen.items()):
+            if nm == "y":
+                xv = read("x", i)
+                if xv is None:
+                    return info, vs
+                if v != xv:
+                    vs.append(Violation("ambiguous:y-vs-x", "y(%r)=%r but x(%r)=%r (case %r)" % (grid[i], v, grid[i], xv, case)))
+                    return info, vs
+            elif nm == "z":
+                j = max(i - k, 0)
+                xv = read("x", j)
+                if xv is None:
+                    return info, vs
+                if v != xv:
+                    vs.append(Violation("ambiguous:delay-vs-x", "z(%r)=%r is delay(x, %s) but x(%r)=%r (case %r)" % (grid[i], v, k * dt, grid[j], xv, case)))
+                    return info, vs
+            elif nm == "s" and i >= 1:
+                s0, xv = read("s", i - 1), read("x", i - 1)
+                if s0 is None or xv is None:
+                    return info, vs
+                want = s0 + float(dt) * xv
+                if abs(v - want) > 1e-9 * max(1.0, abs(want)):
+                    vs.append(Violation("ambiguous:stock-vs-x", "s(%r)=%r but s(%r)+dt*x(%r)=%r (case %r)" % (grid[i], v, grid[i - 1], grid[i - 1], want, case)))
+                    return info, vs
+    except Exception as e:
+        vs.append(Violation("crash:stochastic:%s" % type(e).__name__, "%r raised for case %r" % (e, case)))
+    return info, vs
+
+
+def stochastic_strategy():
+    return st.fixed_dictionaries({
+        "part": st.just("C"),
+        "dt": st.sampled_from(["0.1", "0.1", "0.2", "0.04", "0.25", "1", "0.5"]),
+        "start": st.sampled_from(["0", "0", "1", "0.5"]),
+        "n": st.integers(3, 10), "k": st.integers(1, 3),
+        "order": st.lists(st.tuples(st.integers(0, 3), st.integers(0, 10), st.sampled_from(["call", "call", "equation", "memoize"])).map(list),
+                          min_size=3, max_size=25)})
+
+
 def check_case(case):
     if case.get("part") == "A":
         return check_history(case)
+    if case.get("part") == "C":
+        return check_stochastic(case)
     return check_schedule(case)
 
 
@@ -408,6 +510,8 @@ def _body(ctx):
             kinds = sorted(set(op[0] for op in case["ops"]))
             ctx.case({"part": "A", "model": SM.sym_show(case["model"]), "ops": case["ops"]}, nontrivial=info["nontrivial"],
                      labels=["A:history"] + ["A:op:" + k for k in kinds], key=case)
+        elif case.get("part") == "C":
+            ctx.case({"part": "C", "case": case}, nontrivial=info["nontrivial"], labels=["C:stochastic", "C:dt:" + case["dt"]], key=case)
         else:
             ctx.extra["schedule_points_max"] = max(ctx.extra.get("schedule_points_max", 0), info["points"])
             ctx.case({"part": "B", "equations": case["equations"], "schedule": case.get("choices") and "choice-list[%d]" % len(case["choices"]) or case.get("preempt"),
@@ -438,6 +542,8 @@ def plan(tier):
     for eqs in two:
         for p in range(parts if tier == "quick" else 1):
             specs.append({"kind": "B2", "eqs": eqs, "part": p, "of": parts if tier == "quick" else 1})
+    for i in range(2):
+        specs.append({"kind": "C", "n": 400 if tier == "quick" else 8000})
     nB = 400 if tier == "quick" else 10000
     for i in range(3):
         specs.append({"kind": "Brand", "n": nB})
@@ -448,6 +554,8 @@ def run_shard(spec, ctx):
     body = _body(ctx)
     if spec["kind"] == "A":
         ctx.hyp(history_strategy(), body, spec["n"])
+    elif spec["kind"] == "C":
+        ctx.hyp(stochastic_strategy(), body, spec["n"])
     elif spec["kind"] == "B1":
         def cases():
             for eqs in spec["lists"]:
